@@ -140,6 +140,106 @@ def gen_setval(rng, ty):
     return ['i', v, as_str]
 
 
+def derived_names(toc, grouped=None):
+    """unknown complete names DERIVED from the known ones of a table ('g<group>.n<name>'): as literal strings 'S:<text>'"""
+    def cn(e):
+        return 'g%d.n%d' % (e[2], e[1])
+    known = set(cn(e) for e in toc)
+    out = []
+    for e in toc:
+        k = cn(e)
+        g, n = k.split('.')
+        out += [k + '.bak', k + '.', '.' + k, k + '.min.max', g + '..' + n, '.' + n, g + '.', '.', '', g, n, g + n, k.replace('.', ''),
+                k.upper(), k.capitalize(), ' ' + k, k + ' ', g + ' .' + n, g + '. ' + n, k[:-1] if len(n) > 1 else k + 'x', k + '0', k[1:],
+                'x' + k, k + '\n', g + '.' + n + '.' + g + '.' + n]
+        for e2 in toc:
+            if e2[2] != e[2]:
+                out.append('g%d.n%d' % (e[2], e2[1]))        # known group + known name of another group
+    return ['S:' + x for x in dict.fromkeys(out) if x not in known]
+
+
+def gen_names_case(rng):
+    """API calls with names derived from known ones: nothing may be transmitted, the call raises as HEAD does"""
+    case = gen_case(rng, small=True)
+    toc = case['cfg']['toc']
+    names = derived_names(toc)
+    tag = iter(range(500, 999))
+    for ops in case['threads']:
+        for _ in range(rng.randint(2, 5)):
+            nmx = rng.choice(names)
+            r = rng.random()
+            pos = rng.randrange(len(ops) + 1)
+            if r < 0.45:
+                op = ['set', nmx, ['i', rng.choice([0, 3, 255, 70000]), rng.random() < 0.3]]
+            elif r < 0.65:
+                op = ['read', nmx]
+            else:
+                op = ['misc', rng.choice([3, 3, 4, 5]), nmx, next(tag)]      # get_default_value of an unknown name: direct sweep only
+            if ops and ops[0] == ['readall'] and pos == 0:
+                pos = 1
+            ops.insert(pos, op)
+    case['gen'].update({'stray': 0})
+    return case
+
+
+def _direct_unknown_names():
+    """every by-name entry point of Param with every derived name of a small table: nothing is queued or sent and the call raises
+    (persistent_store reports False through its callback instead, as HEAD does)"""
+    import logging
+    from fakes.c04_sched import Harness
+    logging.disable(logging.CRITICAL)
+    fails = []
+    toc = [[0, 0, 0, 8, 0, 1], [1, 1, 0, 9, 0, 1], [2, 2, 1, 6, 1, 0], [300, 12, 2, 8, 0, 1]]
+    cfg = {'toc': toc, 'cb_param': [], 'cb_group': [], 'cb_all': [], 'dev_enoent': [],
+           'dev_init': {e[0]: bytes(WIDTH[e[3]]) for e in toc}, 'dev_default': {e[0]: bytes(WIDTH[e[3]]) for e in toc}}
+    n = 0
+    h = Harness(cfg)
+    try:
+        h.cf.param.is_updated = True
+        h.cf.param._initialized.set()
+        for e in toc:
+            h.cf.param.values.setdefault('g%d' % e[2], {})['n%d' % e[1]] = '0'
+        prm = h.cf.param
+        for s_ in derived_names(toc):
+            name = s_[2:]
+            got = []
+            calls = {
+                'set_value': lambda: prm.set_value(name, 3),
+                'get_value': lambda: prm.get_value(name),
+                'request_param_update': lambda: prm.request_param_update(name),
+                'get_default_value': lambda: prm.get_default_value(name, lambda *a: got.append(a)),
+                'persistent_store': lambda: prm.persistent_store(name, lambda *a: got.append(a)),
+                'persistent_clear': lambda: prm.persistent_clear(name, lambda *a: got.append(a)),
+                'persistent_get_state': lambda: prm.persistent_get_state(name, lambda *a: got.append(a)),
+            }
+            for api, call in calls.items():
+                n += 1
+                h.drain()
+                h.updater.request_queue.clear()
+                del got[:]
+                raised, res = None, None
+                try:
+                    res = call()
+                except Exception as ex:   # noqa
+                    raised = type(ex).__name__
+                log = h.drain()
+                queued = h.updater.request_queue.qsize()
+                refused = raised is not None or (api == 'persistent_store' and got == [(name, False)])
+                if queued or any(o[0] in ('tx', 'enq') for o in log) or not refused:
+                    fails.append({'class': 'unknown_param_request_transmitted' if api != 'set_value' else 'unknown_param_write_transmitted',
+                                  'case': {'direct': 'names', 'api': api, 'name': name},
+                                  'expected': 'refused without transmission', 'observed': {'raised': raised, 'queued': queued, 'result': repr(res)[:60],
+                                                                                        'callback': repr(got)[:80]},
+                                  'detail': '%s(%r) on a table that has no such parameter' % (api, name)})
+                # the closure get_default_value leaves behind for an unknown name (HEAD raises after registering it) is dropped here
+                for cb in list(getattr(prm, '_misc_callbacks', [])):
+                    prm._remove_misc_callback(cb)
+    finally:
+        h.close()
+        logging.disable(logging.NOTSET)
+    return n, fails
+
+
 def gen_aligned_case(rng):
     """misc requests outstanding for parameters X while the device sends MISC_VALUE_UPDATED notifications for OTHER parameters
     whose index is  command | (X_lo << 8)  and whose first value byte is X_hi, for every misc command: stripped of their command
@@ -357,13 +457,17 @@ def model_events(cfg, op):
     toc = {e[1]: e for e in cfg['toc']}
     if op[0] == 'readall':
         return ['EvRead %d' % e[1] for e in _toc_read_order(cfg['toc'])]
+    from fakes.c04_sched import name_code
+
+    def nm(x):
+        return coqrun.z(name_code(x[2:]) if isinstance(x, str) else x)
     if op[0] == 'read':
-        return ['EvRead %d' % op[1]]
+        return ['EvRead %s' % nm(op[1])]
     if op[0] == 'set':
         kind, v, _ = op[2]
-        return ['EvSet %d (%s %s)' % (op[1], 'VInt' if kind == 'i' else 'VFlt', coqrun.z(v))]
+        return ['EvSet %s (%s %s)' % (nm(op[1]), 'VInt' if kind == 'i' else 'VFlt', coqrun.z(v))]
     if op[0] == 'misc':
-        return ['EvMisc %d %d %s' % (op[1], op[2], 'None' if op[3] is None else '(Some %d)' % op[3])]
+        return ['EvMisc %d %s %s' % (op[1], nm(op[2]), 'None' if op[3] is None else '(Some %d)' % op[3])]
     raise ValueError(op)
 
 
@@ -1399,6 +1503,11 @@ def _executions(ctx):
         rec = execute(case, _First())
         case['sched'] = rec['sched']
         runs.append((case, rec, 'sweep'))
+    for k in range(ctx.scale(50, 1000)):
+        case = gen_names_case(ctx.rng)
+        rec = execute(case, ctx.rng)
+        case['sched'] = rec['sched']
+        runs.append((case, rec, 'names'))
     for k in range(ctx.scale(60, 1200)):
         case = gen_aligned_case(ctx.rng)
         rec = execute(case, ctx.rng)
@@ -1974,6 +2083,13 @@ def oracle(ctx, deep=False):
             fails.append({'class': f['class'], 'case': c, 'expected': f.get('expected'), 'observed': f.get('observed'),
                           'detail': '%s (step %s; source %s)' % (f['detail'], f.get('step_index'), src)})
     fails += _direct_float_overflow()
+    n_names, f_names = _direct_unknown_names()
+    for f in f_names:
+        if f['class'] + ':' + f['case']['api'] not in seen:
+            seen.add(f['class'] + ':' + f['case']['api'])
+            if not any(x['class'] == f['class'] for x in fails):
+                fails.append(f)
+    n += n_names
     return {'evaluations': n + 3, 'failures': fails,
             'rule': 'per execution: set_value bytes vs independent encoder (int.to_bytes / numpy), refusal without '
                     'transmission, wire order = queue order, one outstanding, cache and observer calls = device value at each '
@@ -1985,6 +2101,9 @@ def replay(payload, ctx):
     c = payload['case']
     if c.get('direct') == 'float':
         fs = _direct_float_overflow()
+        return fs[0] if fs else None
+    if c.get('direct') == 'names':
+        fs = [f for f in _direct_unknown_names()[1] if f['case']['api'] == c['api'] and f['case']['name'] == c['name']]
         return fs[0] if fs else None
     if c.get('kind') == 'ext':
         case = {'kind': 'ext', 'cfg': c['cfg'], 'sched': c['sched']}
